@@ -134,17 +134,20 @@ SENSITIVITY = [
 ]
 
 # token expansion as real ssh performs it (ProxyCommand echo)
+# (name, main file, include file, what ssh and the rule give, what expansion at
+# the end of every file would give)
 ECHO_CASES = [
     ('plain', ['ProxyCommand sh -c "echo %h/%p/%r/%n/%% > @OUT@"',
                'Hostname real', 'User bob', 'Port 2200'], None,
-     'real/2200/bob/hosta/%'),
+     'real/2200/bob/hosta/%', None),
     ('include before the values are known',
      ['ProxyCommand sh -c "echo %h/%%h/%p/%r > @OUT@"', 'Include @INC@',
       'Hostname real', 'User bob', 'Port 2200'], '# nothing\n',
-     'real/%h/2200/bob'),
+     'real/%h/2200/bob', 'hosta/real/22/@LU@'),
     ('values set inside the include',
      ['ProxyCommand sh -c "echo %h/%p/%r > @OUT@"', 'Include @INC@',
-      'Port 2200'], 'Hostname inner\nUser carol\n', 'inner/2200/carol'),
+      'Port 2200'], 'Hostname inner\nUser carol\n', 'inner/2200/carol',
+     'inner/22/carol'),
 ]
 
 
@@ -162,6 +165,8 @@ class Replayer:
         self.defect_hits = {}
         self.suppressed = 0
         self.second = []
+        self.connector = cd.Connector()
+        self.resolved = 0
         self.glob_rev = self.world.glob_reversed
 
     def violation(self, sig, what, replay):
@@ -171,11 +176,13 @@ class Replayer:
         self.ctx.violation(sig, what, replay=replay)
 
     def defect(self, names, what, replay):
-        key = '+'.join(names)
-        self.defect_hits[key] = self.defect_hits.get(key, 0) + 1
-        if self.defect_hits[key] == 1:
-            self.ctx.violation({'module': 'Config', 'defect': key}, what,
-                               replay=replay)
+        """One report per named departure (also when it only shows in
+        combination with another one); repeats are counted."""
+        for key in names:
+            self.defect_hits[key] = self.defect_hits.get(key, 0) + 1
+            if self.defect_hits[key] == 1:
+                self.ctx.violation({'module': 'Config', 'defect': key}, what,
+                                   replay=replay)
 
     def classify(self, obs, alts, prog):
         """Name of the known departure(s) that explain(s) `obs`."""
@@ -196,29 +203,32 @@ class Replayer:
         world.write(menu, main, a, b)
         target = menu.targets[ti - 1]
         prog = (main, a, b)
-        first, whole = cd.cli_load(world, target)
+        first = cd.cli_first(world, target)
         exp1, exp = cd.norm(cd.pred_out(p1)), cd.norm(cd.pred_out(pr))
-        two_pass = p1 != pr
+        two_pass = p1 != pr or target[2] == 'canon'
         self.ctx.count(('cli', str(main), str(a), str(b), ti),
                        nontrivial=bool(two_pass or alts or
                                        len(main) > 1))
         replay = {'kind': 'cli', 'files': world.texts(), 'target': target,
                   'expected_first_pass': exp1, 'expected': exp}
-        if self.n % 3000 == 1:
-            self.ctx.sample({'files': world.texts(), 'target': target,
-                             'predicted': exp, 'observed': whole})
         if isinstance(first, tuple):
             self.violation({'module': 'Config', 'files': world.texts(),
                             'target': list(target), 'exception': first[1]},
                            f'loading {world.texts()} for {target} raised '
                            f'{first[1]}: {first[2]}', replay)
             return
-        checks = [('first pass', cd.norm(first), exp1, alts1),
-                  ('resolution', cd.norm(whole), exp, alts)]
-        if self.n % 5 == 0 or two_pass or alts:
-            o = cd.cli_options(world, target)
-            checks.append(('options', cd.norm(o) if isinstance(o, list)
-                           else o, exp, alts))
+        checks = [('first pass', cd.norm(first), exp1, alts1)]
+        whole = None
+        if self.n % 6 == 0 or two_pass or alts:
+            # the whole resolution, by the library's own connect() code
+            whole = self.connector.resolve(world, target)
+            checks.append(('resolution', cd.norm(whole)
+                           if isinstance(whole, list) else whole, exp, alts))
+            self.resolved += 1
+        if self.n % 3000 == 1:
+            self.ctx.sample({'files': world.texts(), 'target': target,
+                             'predicted': exp, 'observed first pass': first,
+                             'observed by connect()': whole})
         for what, obs, want, al in checks:
             if obs == want:
                 continue
@@ -249,7 +259,7 @@ class Replayer:
                 self.second.append((main, a, b, ti, exp))
 
     def srv(self, rec):
-        _, main, a, b, ui, unsafe, pr, alts = rec
+        _, main, a, b, ui, unsafe, pr, alts, rawakf = rec
         cd, menu, world = self.cd, self.menu, self.world
         self.n += 1
         world.write(menu, main, a, b)
@@ -267,12 +277,11 @@ class Replayer:
             self.ctx.sample({'server config': world.texts(), 'user': user,
                              'predicted': want, 'observed': obs})
         # ---- the property, on what was observed ----
-        raw = [l for l in sum(world.texts().values(), [])
-               if 'AuthorizedKeysFile' in l and '%u' in l.replace('%%', '')]
+        templates = [cd.val(x, world) for x in rawakf]
+        raw = [t for t in templates if '%u' in t.replace('%%', '')]
         substituted = obs not in (['reject'], ['-'], ['config-error']) and \
             obs[0] != 'exc'
-        if unsafe and substituted and raw and user and \
-                any(user in v for v in obs):
+        if unsafe and substituted and raw and obs != templates:
             self.violation(
                 {'module': 'Config', 'unsafe_user': user},
                 f'server config {world.texts()}: the client-chosen user name '
@@ -357,7 +366,7 @@ def second_opinion(ctx, cd, menu, cases, root, limit):
 def echo_cases(ctx, cd, rep, root):
     """Token expansion as real ssh does it, three-way."""
     from asyncssh.config import SSHClientConfig
-    for name, lines, inc, want in ECHO_CASES:
+    for name, lines, inc, want, perfile in ECHO_CASES:
         d = os.path.join(root, 'echo')
         os.makedirs(d, exist_ok=True)
         out, incp, cfg = (os.path.join(d, x) for x in ('out', 'inc', 'cfg'))
@@ -389,13 +398,16 @@ def echo_cases(ctx, cd, rep, root):
             ctx.divergence(f'echo case {name!r}: ssh expands to {ssh_says!r},'
                            f' the rule says {want!r}')
         elif got != want:
-            rep.defect(['expansion_per_file'] if inc is not None else
-                       ['token_expansion'],
-                       f'ProxyCommand tokens, case {name!r} '
-                       f'({text.splitlines()}): ssh and the rule expand to '
-                       f'{want!r}, asyncssh to {got!r}',
-                       {'kind': 'echo', 'config': text, 'include': inc,
-                        'expected': want})
+            what = (f'ProxyCommand tokens, case {name!r} '
+                    f'({text.splitlines()}): ssh and the rule expand to '
+                    f'{want!r}, asyncssh to {got!r}')
+            replay = {'kind': 'echo', 'config': text, 'include': inc,
+                      'expected': want}
+            if perfile and got == perfile.replace('@LU@', cd.LOCAL_USER):
+                rep.defect(['expansion_per_file'], what, replay)
+            else:
+                rep.violation({'module': 'Config', 'echo_case': name,
+                               'got': got}, what, replay)
         shutil.rmtree(d, ignore_errors=True)
 
 
@@ -434,12 +446,63 @@ def glob_order_case(ctx, cd, rep, root):
     if so is not None and so != want:
         ctx.divergence(f'glob order: ssh -G gives {so}, the rule {want}')
     elif got != want:
-        rep.defect(['include_glob_unsorted'],
-                   f'Include {d}/g/*.conf with files {sorted(names)}: ssh '
-                   f'reads them sorted ({want}); asyncssh read them in '
-                   f'directory order {fs_order} and resolved {got}',
-                   {'kind': 'globorder', 'names': names, 'expected': want})
+        what = (f'Include {d}/g/*.conf with files {sorted(names)}: ssh '
+                f'reads them sorted ({want}); asyncssh (directory order '
+                f'{fs_order}) resolved {got}')
+        replay = {'kind': 'globorder', 'names': names, 'expected': want}
+        if got == ['u_' + fs_order[0], ['V_' + n for n in fs_order]]:
+            rep.defect(['include_glob_unsorted'], what, replay)
+        else:
+            rep.violation({'module': 'Config', 'case': 'globorder',
+                           'got': got}, what, replay)
     shutil.rmtree(d, ignore_errors=True)
+
+
+def replay_one(ctx, cd, path, root):
+    """./check C18 --replay FILE: write the recorded files again (under a new
+    scratch root) and resolve them once more."""
+    import json
+    import re
+    with open(path) as f:
+        doc = json.load(f)
+    rp, sig = doc['replay'], doc['signature']
+    ctx.count(('replay', path))
+    ctx.traces_validated(1)
+    ctx.level = 'exploration'
+    if rp['kind'] not in ('cli', 'srv'):
+        # hand-written cases: run them all again
+        rep = Replayer(ctx, cd, None, os.path.join(root, 'w'))
+        echo_cases(ctx, cd, rep, root)
+        glob_order_case(ctx, cd, rep, root)
+        return
+    w = cd.World(os.path.join(root, 'w'))
+    blob = json.dumps(rp)
+    m = re.search(r'(/[^"\\ ]*?/c18_files_[^/"\\ ]+/w)/', blob)
+    if m:
+        rp = json.loads(blob.replace(m.group(1), w.root))
+    files = rp['files']
+    names = {'config': w.main, 'incA / g/a.conf': w.inc_a,
+             'g/b.conf': os.path.join(w.globdir, 'b.conf')}
+    for name, p in names.items():
+        w._put(p, '\n'.join(files.get(name, [])) + '\n')
+    w._put(os.path.join(w.globdir, 'a.conf'),
+           '\n'.join(files.get('incA / g/a.conf', [])) + '\n')
+    if rp['kind'] == 'cli':
+        target = tuple(rp['target'])
+        first = cd.cli_first(w, target)
+        conn = cd.Connector()
+        whole = conn.resolve(w, target)
+        conn.close()
+        got = [cd.norm(first), cd.norm(whole)]
+        good = got == [rp['expected_first_pass'], rp['expected']]
+    else:
+        got = cd.srv_load(w, rp['user'])
+        if got[0] == 'exc' and got[1] == 'ConfigParseError':
+            got = ['config-error']
+        good = got == rp['expected']
+    print(f'replay {path}: observed {got}')
+    if not good:
+        ctx.violation(sig, doc['what'] + f' [replayed: {got}]', replay=rp)
 
 
 def main(ctx):
@@ -451,7 +514,10 @@ def main(ctx):
     saved = {k: os.environ.get(k) for k in ('LOGNAME', 'CFGV')}
     try:
         cd.setup_env()
-        _main(ctx, cd, root)
+        if getattr(ctx, 'replay_path', None):
+            replay_one(ctx, cd, ctx.replay_path, root)
+        else:
+            _main(ctx, cd, root)
     finally:
         shutil.rmtree(root, ignore_errors=True)
         for k, v in saved.items():
@@ -494,6 +560,9 @@ def _main(ctx, cd, root):
         if menu is None:
             menu = cd.Menu(recs[0])
             rep = Replayer(ctx, cd, menu, os.path.join(root, 'w'))
+            # hand-written cases first: their reports are the clearest
+            echo_cases(ctx, cd, rep, root)
+            glob_order_case(ctx, cd, rep, root)
         cases = [r for r in recs[1:] if r and r[0] == mode]
         ctx.require(len(cases) == res.distinct,
                     f'{name}: parsed {len(cases)} case lines, TLC reports '
@@ -506,10 +575,12 @@ def _main(ctx, cd, root):
         res.output = ''
     ctx.traces_validated(total)
 
-    echo_cases(ctx, cd, rep, root)
-    glob_order_case(ctx, cd, rep, root)
     second_opinion(ctx, cd, menu, rep.second, root, 900 if quick else 5000)
 
+    rep.connector.close()
+    ctx.notes.append(f'{rep.resolved} cases also resolved through '
+                     f'asyncssh.connect() (canonicalisation and second pass '
+                     f'by the library)')
     ctx.notes.append(f'phases: TLC {t_tlc:.1f}s, replay + second opinion '
                      f'{time.time() - ctx.t0 - t_tlc:.1f}s')
     if rep.defect_hits:
@@ -519,10 +590,11 @@ def _main(ctx, cd, root):
         ctx.notes.append(f'{rep.suppressed} further violations not written '
                          f'out (cap 40)')
     ctx.assumptions += [
-        'canonicalisation is simulated as connection._connect() does after a '
-        'successful lookup (host replaced by host+"c", canonical=True); only '
+        'canonicalisation: connect(canonicalize_hostname=True, '
+        'canonical_domains=["c"]) with a resolver that knows every name; only '
         'programs without Hostname / originalhost / %n are used there (ssh '
-        'and asyncssh name the hosts differently in that pass; not judged)',
+        'and asyncssh name the hosts differently in that pass; not judged); '
+        'no second opinion (ssh -G cannot canonicalise offline)',
         '"Match canonical" follows ssh_config(5) (true only after '
         'canonicalisation); real ssh also makes it true in a final pass, so '
         'programs using both are not sent to ssh -G',
